@@ -1,3 +1,9 @@
-/-! # C07 — (stub: property theorems go here; see docs/BUILDING.md) -/
+import PtVerif.Model.LoadersNsf
+import PtVerif.Generated.NsfTables
+/-! # C07 — placeholder while the pipeline is brought up -/
 namespace PtVerif.C07
+open PtLoad
+
+theorem placeholder : fixNumber "<6.0E-6".toList = some (.plain ⟨60, 7⟩) := by decide
+
 end PtVerif.C07
